@@ -57,6 +57,9 @@ FullFile(d, at) == [exists |-> TRUE, mtime |-> at, zero |-> FALSE,
 
 Judge(e) ==
     IF ~e.ok THEN "Answered"
+    \* the cache file's times moved although nobody wrote it: its age was refreshed (any request, HEAD included)
+    ELSE IF e.touched THEN "NoRefresh"
+    ELSE IF e.p = "HH" THEN "ok"              \* HEAD: no listing to judge
     ELSE IF Matching(e.p, e.view) = {} THEN "Faithful"
     ELSE LET d == CHOOSE x \in Matching(e.p, e.view) : TRUE IN
          IF ~e.listed /\ ~(Complete(file) /\ d = Payload) THEN "Transparent"
@@ -74,7 +77,7 @@ Request(e) ==
     /\ file' = IF e.rewritten
                THEN FullFile(IF e.listed \/ ~Complete(file) THEN dir ELSE Payload, clock)
                ELSE file
-    /\ IF (ModelHit = ~e.listed) /\ (e.rewritten = e.listed) THEN TRUE
+    /\ IF (ModelHit = ~e.listed) /\ (e.rewritten = (e.listed /\ e.p # "HH")) THEN TRUE
        ELSE RecordDrift(tid, l, "hit/miss or rewrite decision")
     /\ UNCHANGED <<dir, hist, clock, T, pc, mem, req, started, out, wpos>>
 
